@@ -68,16 +68,17 @@ Theorem C01_pp_largest_coprime_divisor_exact : Pp_exact.   Proof. exact pp_exact
 Print Assumptions C01_pp_largest_coprime_divisor_exact.
 Example C01_pp_hyp_satisfiable : exists P Q, P <> 0 /\ pp P Q = 5 /\ (2 | P) /\ (2 | Q).
 Proof. exists 360, 6. repeat split; [discriminate | exists 180; reflexivity | exists 3; reflexivity]. Qed.
-(* the loops as they are in the source (model with a "does not return" outcome): pp returns exactly for P <> 0 (value: the theorem above) and does
-   NOT return for P = 0, |Q| >= 2, whatever the fuel - finding `pp ... does not return`; the body after frag/C01.fix-5.diff returns 0 there *)
-Theorem C01_pp_returns_iff_documented_finding : Pp_returns.   Proof. exact pp_returns. Qed.
-Print Assumptions C01_pp_returns_iff_documented_finding.
+(* the loops as they are in the source (model with a "does not return" outcome).  pp in the tree (since /repo 348f995 = frag/C01.fix-5.diff) returns for
+   EVERY P, Q (0 for P = 0, the value of the theorem above otherwise).  HISTORY clauses: the body before the repair returned exactly for P <> 0 and did
+   NOT return for P = 0, |Q| >= 2, whatever the fuel *)
+Theorem C01_pp_returns_for_every_input_since_fix5 : Pp_returns.   Proof. exact pp_returns. Qed.
+Print Assumptions C01_pp_returns_for_every_input_since_fix5.
 Example C01_pp_returns_hyp_satisfiable : pp_o 360 6 = Ret 5 /\ pp_o 0 5 = NoReturn /\ pp_fixed_o 0 5 = Ret 0.
 Proof. repeat split. Qed.
-(* logp returns the integer logarithm for 2 <= p, 1 <= a, 0 for a < p, and does NOT return for p in {0,1} (p <= a), p = -1 (1 <= a), whatever the
-   fuel - finding `logp ... does not return`; the body after frag/C01.fix-6.diff throws for every p < 2 *)
-Theorem C01_logp_returns_iff_documented_finding : Logp_returns.   Proof. exact logp_returns. Qed.
-Print Assumptions C01_logp_returns_iff_documented_finding.
+(* logp in the tree (since /repo 2291e98 = frag/C01.fix-6.diff) throws for every p < 2 and returns the integer logarithm for 2 <= p (0 for a < p).
+   HISTORY clauses: the body before the repair did NOT return for p in {0,1} (p <= a), p = -1 (1 <= a), whatever the fuel *)
+Theorem C01_logp_returns_or_throws_for_every_input_since_fix6 : Logp_returns.   Proof. exact logp_returns. Qed.
+Print Assumptions C01_logp_returns_or_throws_for_every_input_since_fix6.
 Example C01_logp_returns_hyp_satisfiable : logp_o 1000 10 = Ret 3 /\ logp_o 5 1 = NoReturn /\ logp_fixed_o 5 1 = Throws /\ logp_o 3 7 = Ret 0.
 Proof. repeat split. Qed.
 (* root(q,a,n) of a NEGATIVE a with odd n: truncation towards 0 ((q-1)^n < a <= q^n, exactness flag); ZRing::abs(x,a) = |a| *)
